@@ -367,3 +367,167 @@ Proof.
   - left. exists tc. split; [exact X|lia].
   - right. split; lia.
 Qed.
+
+(** * 3. The model passes the acceptor that judges the implementation *)
+
+Lemma outcome_eqb_refl o : outcome_eqb o o = true.
+Proof.
+  unfold outcome_eqb. apply andb_true_iff. split; [|apply N.eqb_refl].
+  apply (list_eqb_spec N.eqb); [intros; apply N.eqb_eq|reflexivity].
+Qed.
+
+Lemma take_notes_notes c k w tl :
+  take_notes c k (notes c k w ++ tl)
+  = Some (if has_log c || has_hook c then Some w else None, tl).
+Proof.
+  unfold take_notes, notes. destruct (has_log c), (has_hook c); cbn;
+    rewrite ?Z.eqb_refl; cbn; rewrite ?Z.eqb_refl; cbn; reflexivity.
+Qed.
+
+Ltac bsplit := repeat (apply andb_true_iff; split).
+
+Section Accepted.
+  Variables (c : cfg) (sk : slack) (h : nat -> outcome) (sl : nat -> sel) (td : option Z)
+            (end0 created treset : Z) (cancel : option Z).
+  Hypothesis Hcfg : cfg_ok c.
+  Hypothesis Hsk : 0 <= sl_lo sk /\ 0 <= sl_exit sk /\ 0 <= sl_af sk /\ 0 <= sl_d sk.
+  Hypothesis Htimes : end0 <= created <= treset.
+  Hypothesis Hdone : forall t, td = Some t ->
+    (exists tc, cancel = Some tc /\ tc <= t) \/ (0 < max_elapsed c /\ end0 + max_elapsed c <= t).
+  Hypothesis Hcancel : forall tc, cancel = Some tc -> exists t, td = Some t /\ t <= tc.
+  Hypothesis Htimely : 0 < max_elapsed c -> exists t, td = Some t /\ t <= created + max_elapsed c + sl_af sk.
+
+  (** a retry that happened after a wait of at least [w] passes the timing rules *)
+  Lemma timing_fact (o : obs) (k : nat) (now tnb ts ts1 wait w : Z) :
+    o_cpost o = cancel -> (1 <= k)%nat ->
+    treset <= tnb -> ((2 <= k)%nat -> treset <= ts1) ->
+    now <= tnb -> wait <= ts - tnb ->
+    (0 < wait -> forall t, td = Some t -> tnb + wait <= t) ->
+    w <= wait ->
+    timing_ok c sk o k (Some w) ts (if (k <=? 1)%nat then ts else ts1) now = true.
+  Proof.
+    intros Hcp Hk Hnow Hts1 Htnb Hwake Hsel Hw. destruct Hsk as [S1 [S2 [S3 S4]]].
+    unfold timing_ok. bsplit; [apply Z.leb_le; lia|].
+    destruct (0 <? w) eqn:E; [|reflexivity]. zb. bsplit.
+    - rewrite Hcp. destruct cancel as [tc|] eqn:Ec; [|reflexivity].
+      destruct (Hcancel tc eq_refl) as [t [Ht Hle]]. pose proof (Hsel ltac:(lia) t Ht).
+      apply Z.leb_le. lia.
+    - destruct (0 <? max_elapsed c) eqn:EM; [|reflexivity]. zb.
+      destruct (Htimely EM) as [t [Ht Hle]]. pose proof (Hsel ltac:(lia) t Ht).
+      destruct (k <=? 1)%nat eqn:Ek.
+      + apply Z.leb_le. lia.
+      + apply Nat.leb_gt in Ek. pose proof (Hts1 ltac:(lia)). apply Z.leb_le. lia.
+  Qed.
+
+  Lemma loop_accepted : forall rem k cur ocur now pe ts1 last o,
+    is_ok last = false -> 0 <= cur -> (ocur = Some cur \/ ocur = None) ->
+    (1 <= k)%nat -> treset <= now -> pe <= now -> ((2 <= k)%nat -> treset <= ts1) ->
+    loop_ok c h sl td treset rem k cur now = true ->
+    let r := loop c h sl rem k cur now last in
+    o_out o = r_out r -> o_tret o = r_tret r -> o_cpre o = cancel -> o_cpost o = cancel ->
+    mloop c sk h o rem k ocur end0 ts1 pe last (r_trace r) = true.
+  Proof.
+    induction rem as [|rem IH]; intros k cur ocur now pe ts1 last o Hl Hc Hoc Hk Hnow Hpe Hts1 Hok; cbn zeta.
+    - cbn. intros Ho _ _ _. rewrite Ho. cbn [snd]. rewrite is_ok_nil_err, Hl. cbn. apply N.eqb_refl.
+    - cbn [loop loop_ok] in *.
+      destruct (next_backoff c cur (s_elapsed (sl k)) (s_rnd (sl k))) as [wait cur'] eqn:NB.
+      apply andb_true_iff in Hok as [Hs Hok].
+      apply sel_ok_spec in Hs as [G [W [D [R0 [R1 [El [Cx Tm]]]]]]].
+      destruct (next_backoff_spec c cur _ _ wait cur' Hcfg Hc R0 R1 NB) as [Hc' Hnb].
+      destruct (s_ctx (sl k)) eqn:Ectx.
+      + (* gave up through ctx.Done *)
+        cbn [r_out r_tret r_trace]. intros Ho Ht Hpre _. cbn [mloop]. rewrite Ho, Hl. cbn [negb andb].
+        rewrite N.eqb_refl. cbn [andb]. unfold exit_ok. rewrite Hpre, Ht.
+        destruct (Cx eq_refl) as [t [Etd [T1 T2]]].
+        destruct (Hdone t Etd) as [[tc [Ec Hle]]|[M1 M2]].
+        * rewrite Ec. apply orb_true_iff. left. apply Z.leb_le. lia.
+        * apply orb_true_iff. right. bsplit; [apply Z.ltb_lt; lia|apply Z.leb_le; lia].
+      + destruct (Tm eq_refl) as [Tw Tsel].
+        set (tnb := now + s_gap (sl k)) in *. set (ts := tnb + s_wake (sl k)) in *.
+        set (te := ts + s_dur (sl k)) in *.
+        assert (Hunknown : forall oc, (oc = Some cur \/ oc = None) -> o_cpost o = cancel ->
+                  timing_ok c sk o k (unknown_wait c oc ts end0) ts (if (k <=? 1)%nat then ts else ts1) pe = true).
+        { intros oc [-> | ->] E; [|reflexivity].
+          unfold unknown_wait.
+          destruct ((0 <? max_elapsed c) && (max_elapsed c <? ts - end0)) eqn:Es; [reflexivity|].
+          apply (timing_fact o k pe tnb ts ts1 wait); try assumption; try (unfold tnb, ts; lia).
+          all: destruct Hnb as [[? [? [? ?]]]|[? [[? ?] _]]]; [|assumption].
+          all: apply andb_false_iff in Es as [Es|Es]; zb; unfold ts, tnb in *; lia. }
+        destruct (is_ok (h k)) eqn:Hhk.
+        * (* the retry succeeded *)
+          cbn [r_out r_tret r_trace]. intros Ho Ht Hpre Hpost. cbn [mloop]. rewrite Hhk, Ho.
+          rewrite Nat.eqb_refl, outcome_eqb_refl. cbn [andb].
+          rewrite (Hunknown ocur Hoc Hpost). bsplit; try reflexivity; apply Z.leb_le; unfold te, ts, tnb; lia.
+        * (* it failed: logger, hook, next iteration *)
+          cbn [r_out r_tret r_trace]. intros Ho Ht Hpre Hpost. cbn [mloop].
+          rewrite Hhk, take_notes_notes, Nat.eqb_refl.
+          assert (Hrec : forall oc', (oc' = Some cur' \/ oc' = None) ->
+                    mloop c sk h o rem (S k) oc' end0 (if (k <=? 1)%nat then ts else ts1) te (h k)
+                          (r_trace (loop c h sl rem (S k) cur' te (h k))) = true).
+          { intros oc' Hoc'. apply (IH (S k) cur' oc' te te _ (h k) o); try assumption; try lia;
+              try (unfold te, ts, tnb; lia).
+            intros Hk2. destruct (k <=? 1)%nat eqn:Ek.
+            - unfold ts, tnb. lia.
+            - apply Nat.leb_gt in Ek. apply Hts1. lia. }
+          assert (Hcalls : (ts <=? te) && (pe <=? ts) = true)
+            by (bsplit; apply Z.leb_le; unfold te, ts, tnb; lia).
+          apply andb_true_iff in Hcalls as [Hc1 Hc2]. rewrite Hc1, Hc2. cbn [andb].
+          assert (Htim : timing_ok c sk o k (Some wait) ts (if (k <=? 1)%nat then ts else ts1) pe = true).
+          { apply (timing_fact o k pe tnb ts ts1 wait); try assumption; try (unfold tnb, ts; lia). }
+          destruct (has_log c || has_hook c) eqn:Enotes.
+          -- destruct Hoc as [-> | ->].
+             ++ rewrite Htim. bsplit; try reflexivity.
+                ** (* delay_ok *)
+                   unfold delay_ok. destruct Hsk as [S1 [S2 [S3 S4]]].
+                   destruct Hnb as [[Ew [_ [M1 M2]]]|[_ [[L1 L2] [_ [_ M]]]]].
+                   --- apply orb_true_iff. left. rewrite Ew. bsplit; try reflexivity.
+                       +++ apply Z.ltb_lt. lia.
+                       +++ apply Z.ltb_lt. unfold ts, tnb in *. lia.
+                   --- apply orb_true_iff. right. bsplit; try (apply Z.leb_le; lia).
+                       destruct M as [M|M]; [rewrite M; reflexivity|].
+                       destruct (k <=? 1)%nat eqn:Ek; [apply orb_true_iff; left; apply orb_true_iff; right; reflexivity|].
+                       apply Nat.leb_gt in Ek. pose proof (Hts1 ltac:(lia)).
+                       apply orb_true_iff. right. apply Z.leb_le. unfold tnb in *. lia.
+                ** apply Hrec. left.
+                   destruct Hnb as [[Ew [Ec _]]|[Ec [_ [Hw0 _]]]].
+                   --- rewrite Ew, Ec. reflexivity.
+                   --- destruct (wait =? STOP) eqn:E; [zb; unfold STOP in *; lia|]. rewrite Ec. reflexivity.
+             ++ rewrite Htim. cbn [andb]. apply Hrec. right. reflexivity.
+          -- rewrite (Hunknown ocur Hoc Hpost). cbn [andb].
+             apply Hrec. destruct Hoc as [-> | ->]; [|right; destruct (max_elapsed c =? 0); reflexivity].
+             destruct (max_elapsed c =? 0) eqn:EM; [|right; reflexivity]. left. cbn [option_map]. zb.
+             destruct Hnb as [[_ [_ [M1 _]]]|[Ec _]]; [lia|rewrite Ec; reflexivity].
+  Qed.
+End Accepted.
+
+Lemma t_done_timely c e l : 0 < max_elapsed c -> e_lag e = Some l ->
+  exists t, t_done c e = Some t /\ t <= t_end0 e + e_ctx_gap e + max_elapsed c + l.
+Proof.
+  intros M E. unfold t_done. rewrite E. apply Z.ltb_lt in M. rewrite M.
+  destruct (e_cancel e); cbn; eexists; split; try reflexivity; lia.
+Qed.
+
+(** every run of the model under a valid environment is accepted by the monitor, with any
+    non-negative slack, provided the timeout context closes Done within [sl_af] of its
+    deadline (the only upper bound on a reaction time the monitor relies on) *)
+Lemma retry_accepted c sk h e :
+  cfg_ok c -> 0 <= sl_lo sk /\ 0 <= sl_exit sk /\ 0 <= sl_af sk /\ 0 <= sl_d sk ->
+  env_ok c h e = true ->
+  (0 < max_elapsed c -> exists l, e_lag e = Some l /\ l <= sl_af sk) ->
+  retry_monitor c sk h (obs_of e (retry c h e)) = true.
+Proof.
+  intros Hcfg Hsk Henv Hlag. apply env_ok_spec in Henv as [D0 [Gp [Lg Hl]]].
+  unfold retry_monitor, obs_of, retry. destruct (is_ok (h O)) eqn:H0.
+  - cbn. rewrite ?H0, outcome_eqb_refl. cbn. bsplit; try reflexivity. apply Z.leb_le. unfold t_end0. lia.
+  - cbn [r_trace r_out r_tret o_trace]. rewrite ?H0.
+    apply andb_true_iff. split; [apply Z.leb_le; unfold t_end0; lia|].
+    apply (loop_accepted c sk h (e_sel e) (t_done c e) (t_end0 e) (t_end0 e + e_ctx_gap e) (t_reset e) (e_cancel e));
+      try assumption; try reflexivity; try (unfold t_reset; lia).
+    + intros t Ht. apply (t_done_cases c e t); [lia|exact Lg|exact Ht].
+    + intros tc Ht. apply t_done_cancel. exact Ht.
+    + intros M. destruct (Hlag M) as [l [El Hle]]. destruct (t_done_timely c e l M El) as [t [Ht Hb]].
+      exists t. split; [exact Ht|lia].
+    + destruct Hcfg; assumption.
+    + left. reflexivity.
+    + apply Hl. reflexivity.
+Qed.
